@@ -148,8 +148,28 @@ def c18_3(ctx, r):
         raise AnalysisError("C18.3", f"only {n} status lookups found")
     # parse: the state is the second field of each line, the id the first
     gs = ctx.fn(f"{SM}._get_statuses_from_output", "C18.3")
-    txt = ctx.src(gs.node).replace(" ", "")
-    r.check("job_id=fields[0]" in txt and "status=fields[1]" in txt and "statuses[job_id]=" in txt, "parse: id = field 0, state = field 1", key_of(gs, "field order"), gs.loc(), "the squeue line is parsed with a different field order")
+    cfg_gs = ctx.cfg(gs)
+    st_nodes = [n for n in cfg_gs.nodes if n.kind == "stmt" and isinstance(n.ast, ast.Assign) and isinstance(n.ast.targets[0], ast.Subscript) and ctx.src(n.ast.targets[0].value) == "statuses"]
+    okf = bool(st_nodes)
+    got = []
+    for n in st_nodes:
+        g = ctx.guards(gs)
+        key = n.ast.targets[0].slice
+        key = g.expand(key, n) if isinstance(key, ast.Name) else key
+        val = n.ast.value
+        look = val.args[0] if isinstance(val, ast.Call) and val.args else None
+        look = g.expand(look, n) if isinstance(look, ast.Name) else look
+
+        def field_index(e):
+            if isinstance(e, ast.Subscript) and isinstance(e.slice, ast.Constant) and isinstance(e.value, ast.Name):
+                src = g.expand(e.value, n)
+                if "split(" in ctx.src(src):
+                    return e.slice.value
+            return None
+
+        got.append((field_index(key), field_index(look) if look is not None else None))
+        okf = okf and got[-1] == (0, 1)
+    r.check(okf, "parse: id = field 0, state = field 1 of the split line", key_of(gs, "field order"), gs.loc(), f"the squeue line is parsed with (id field, state field) = {got}, the request asks for (jobid, state)")
     # every non-blank line of the answer yields an entry: a line skipped (or a parse loop left early) makes the
     # ids behind it look absent, and absent = finished
     cfgs = ctx.cfg(gs)
@@ -159,6 +179,17 @@ def c18_3(ctx, r):
         raise AnalysisError("C18.3", f"expected one parse loop with a store into `statuses` in {gs.short}")
     lv = ctx.src(loops[0].target)
     blank = {(f"{lv} == ''", True), (lv, False), (f"{lv}.strip()", False), (f"{lv}.strip() == ''", True)}
+    # `text.split("\n")` yields "" for an empty answer and after a trailing newline: such a line must be skipped, not parsed
+    it_e = loops[0].iter
+    heads = [n for n in cfgs.nodes if n.kind == "for" and n.ast is loops[0]]
+    it_x = ctx.guards(gs).expand(it_e, heads[0]) if isinstance(it_e, ast.Name) and heads else it_e
+    by_split = isinstance(it_x, ast.Call) and isinstance(it_x.func, ast.Attribute) and it_x.func.attr == "split" and it_x.args and isinstance(it_x.args[0], ast.Constant) and it_x.args[0].value == "\n"
+    skips = [1 for end, conds, last in iteration_paths(ctx, gs, loops[0], avoid=stores) if end == "next" and conds & blank]
+    if by_split:
+        r.check(bool(skips), "a blank line (empty answer, trailing newline) is skipped", key_of(gs, "blank line parsed"), gs.loc(loops[0]),
+                f"the lines come from `{ctx.src(it_x)}`, which yields an empty string for an empty squeue answer, and no path skips a blank line: with no batch left in the queue - exactly when a user runs the documented "
+                "try-submit-jobs recovery - the parser fails (field count assertion / index error) and the round never completes the submission",
+                "The submission still reaches completion after the documented try-submit-jobs")
     for end, conds, last in iteration_paths(ctx, gs, loops[0], avoid=stores):
         okp = end == "next" and bool(conds & blank)
         what = "leaves the parse loop" if end == "leave" else "skips a line"
@@ -222,6 +253,15 @@ def submit_returns(ctx, r, rid):
     ctx.counters["paths"] += npaths
     if goods == 0:
         raise AnalysisError(rid, "submit() has no GOOD path")
+    # the (unanchored) pattern is searched for, not matched at the start: sbatch may print other lines first, and an
+    # accepted batch that is taken for a failure is on the scheduler without being counted as active
+    uses = [c for n in cfg.nodes for c in cfg.calls_at(n) if isinstance(c.func, ast.Attribute) and isinstance(c.func.value, ast.Attribute) and c.func.value.attr == "_REGEX_SBATCH_OUTPUT"]
+    if not uses:
+        raise AnalysisError(rid, "submit() does not apply _REGEX_SBATCH_OUTPUT")
+    for c in uses:
+        r.check(c.func.attr == "search", "the job-id pattern is searched anywhere in sbatch's output", key_of(fn, f"job id pattern applied with .{c.func.attr}"), fn.loc(c),
+                f"`{ctx.src(c)}` anchors the unanchored pattern at the start of stdout: when sbatch prints a note before 'Submitted batch job N' an accepted batch is classified as a failed submission - "
+                "it runs on the scheduler but is never counted as active, so the max-nodes limit is exceeded and its jobs are handed out again", "an unparsable submit response is treated as a failed submission (and only that)")
     cls = ctx.cls(SM)
     rx = cls.class_vars.get("_REGEX_SBATCH_OUTPUT")
     r.check(isinstance(rx, ast.Call) and rx.args and isinstance(rx.args[0], ast.Constant) and rx.args[0].value == "Submitted batch job (\\d+)", "pattern = `Submitted batch job (\\d+)`", key_of(fn, "pattern"), fn.loc(), f"sbatch output pattern is {ctx.src(rx) if rx is not None else None}")
@@ -306,6 +346,15 @@ def c18_5(ctx, r):
     sc = ctx.fn("run_command._should_exit_early", "C18.5")
     ok = any(isinstance(n, ast.If) and ctx.src(n.test).replace(" ", "") == "errinstd_err" for n in iter_own(sc.node))
     r.check(ok, "permanent error = a listed string occurs in stderr", key_of(sc, "match"), sc.loc(), "_should_exit_early no longer tests `err in std_err`")
+    lps = [n for n in sc.node.body if isinstance(n, ast.For)]
+    if len(lps) != 1 or not isinstance(lps[0].iter, ast.Name) or lps[0].iter.id not in sc.params:
+        raise AnalysisError("C18.5", "_should_exit_early does not loop over its error-strings parameter")
+    for end, conds, last in iteration_paths(ctx, sc, lps[0]):
+        if end == "leave":
+            hit = any(p and " in " in f for f, p in conds)
+            r.check(hit, "the scan of the listed errors stops only on a match", key_of(sc, f"scan left early under {sorted(('' if p else 'not ') + f for f, p in conds)}"), sc.loc(last.stmt if last.stmt is not None else lps[0]),
+                    "_should_exit_early leaves the loop over the listed error strings without a match: only the first listed string is ever examined, so a failure matching a later one is retried num_retries times",
+                    "stopping at the first success or at a listed permanent error")
     # one execution per iteration
     rc = ctx.fn("run_command._run_command", "C18.5")
     ex2 = [s for s in ctx.cg.sites_in(rc) if s.external in ("subprocess.Popen", "subprocess.call", "subprocess.run")]
